@@ -206,3 +206,4 @@ NOT_READY = False
 LEVEL_TEXT = 'Proof (BaseNode/Node, BinaryNode and DAGNode stores). On the statement-level model of the parent and children setters the EXECUTED roll-back code is proved to restore the snapshot: C02.setParent_rej_id, setChildren_rej_id (checks on) / setChildren_rej_id_unchecked (checks off, guard-accepted arguments), step_rej_id (every API call except the documented loop extend): whenever the outcome is a rejection - wrong type, self/ancestor loop, repeated child, duplicate sibling name, user hook raising before or after the assignment - the resulting store EQUALS the store before the call (every parent, every child list in order, names, separators), for every well-formed store. Key lemma reinsert_one/restore_fold: re-inserting the stolen children in ascending original index (the D1 repair) rebuilds each donor list; prefix_rollback_not_identity is the kernel-checked counter-example for the pre-fix dict-order roll-back (p.children=[x,y,z], failing q.children=[y,x] gives [x,z,y]). Tied to /repo on every run by differential testing of histories with ~50 % failing calls on hook-raising user subclasses; the oracle compares full snapshots before/after every raising call.'
 LEVEL_NOTE = 'Exhaustive tie: every forest reachable on <=3 / <=4 nodes x every parent/children assignment x every argument tuple x every hook fault; corpus: D1 witness in every order, donors with >= 4 children, two orphans, children already under the target, donor itself stolen. extend() is a documented loop: only its steps are atomic. Hooks raise or return, they do not mutate links.'
 TECHNIQUE = 'Lean 4 proof that roll-back ∘ body = identity on well-formed stores (fold invariants over the restoring loop) + correspondence check + before/after snapshot oracle'
+RULE = RULE + ' Fifth session: the DAG histories pass one-shot iterators as children arguments (D13/D14); an extend() with a loop member takes a history out of the checks-off comparison.'
